@@ -139,10 +139,11 @@ template<class T> static void run_segment(vt::Rng& g, long seg, long events, lon
   std::vector<uint8_t> blob[NB]; bool blive[NB] = {false, false, false};
   auto mk = [&](int i) {
     float p = PS[g.below(4)]; auto rf = (resize_factor)g.below(4);
-    sk[i].reset(new typename T::Update(T::make(lgk, rf, p, sd, nv)));
-    th[i].reset(new update_theta_sketch(update_theta_sketch::builder().set_lg_k(lgk).set_resize_factor(rf).set_p(p).set_seed(sd).build()));
+    const uint8_t mylgk = (uint8_t)(g.chance(35) ? lgk + 1 : lgk);   // the two sketches of a segment may differ in lg_k
+    sk[i].reset(new typename T::Update(T::make(mylgk, rf, p, sd, nv)));
+    th[i].reset(new update_theta_sketch(update_theta_sketch::builder().set_lg_k(mylgk).set_resize_factor(rf).set_p(p).set_seed(sd).build()));
     uint64_t startH = p < 1 ? (uint64_t)((double)MAXT * p) : MAXT;
-    Ev("New").i("id", i).i("k", 1L << lgk).h("startH", startH).h("maxH", MAXT).emit();
+    Ev("New").i("id", i).i("k", 1L << mylgk).h("startH", startH).h("maxH", MAXT).emit();
   };
   mk(0); mk(1);
   auto pickc = [&]() { for (int t = 0; t < 20; t++) { int c = (int)g.below(NC); if (cv[c]) return c; } return -1; };
@@ -208,7 +209,10 @@ template<class T> static void run_segment(vt::Rng& g, long seg, long events, lon
       Ev("Obs").i("id", i).raw("r", proj<T>(s)).hl("entT", entT).emit();
     } else if (op < 7) {
       int j = 1 - i;
-      if (g.chance(50)) { *sk[j] = s; *th[j] = *th[i]; } else { sk[j].reset(new typename T::Update(s)); th[j].reset(new update_theta_sketch(*th[i])); }
+      const int how = (int)g.below(3);   // copy assignment, move assignment from a temporary, copy construction
+      if (how == 0) { *sk[j] = s; *th[j] = *th[i]; }
+      else if (how == 1) { *sk[j] = typename T::Update(s); *th[j] = update_theta_sketch(*th[i]); }
+      else { sk[j].reset(new typename T::Update(s)); th[j].reset(new update_theta_sketch(*th[i])); }
       Ev("Copy").i("src", i).i("dst", j).raw("r", proj<T>(*sk[j])).emit();
     } else if (op < 10) {
       int c = (int)g.below(NC); bool ord = g.chance(50);
@@ -238,7 +242,13 @@ template<class T> static void run_segment(vt::Rng& g, long seg, long events, lon
       }
     } else if (op < 16) {
       int u = (int)g.below(NU); uint8_t ulgk = (uint8_t)g.range(5, maxlgk); float p = PS[g.below(4)];
-      un[u].reset(new typename T::Union(T::make_union(ulgk, (resize_factor)g.below(4), p, sd, nv)));
+      {
+        const resize_factor urf = (resize_factor)g.below(4);
+        const int how = un[u] ? (int)g.below(3) : 0;   // re-initialise an existing variable by move / copy assignment, or a new object
+        if (how == 1) *un[u] = T::make_union(ulgk, urf, p, sd, nv);
+        else if (how == 2) { typename T::Union fresh(T::make_union(ulgk, urf, p, sd, nv)); *un[u] = fresh; }
+        else un[u].reset(new typename T::Union(T::make_union(ulgk, urf, p, sd, nv)));
+      }
       uint64_t startH = p < 1 ? (uint64_t)((double)MAXT * p) : MAXT;
       Ev("UNew").i("u", u).i("k", 1L << ulgk).h("startH", startH).emit();
     } else if (op < 21) {
